@@ -30,14 +30,21 @@ Chains(i, n) == IF i > n THEN {<<>>} ELSE {<<cc>> \o rest : cc \in Certs(i), res
 Bounds == {0, 1, 255, 256, 65535, 65536, 16777215, 16777216, 2147483647}
 TraceLog == IF Family = "trace" THEN JsonDeserialize(IOEnv.TRACE_FILE) ELSE <<>>
 Scenarios(z) ==
-    IF Family = "trace" THEN { [kind |-> TraceLog[i].kind, certs |-> TraceLog[i].certs, fs |-> TraceLog[i].fs, tid |-> i] : i \in 1..Len(TraceLog) }
-    ELSE UNION { { [kind |-> "chain", certs |-> ch, fs |-> f, tid |-> 0] : ch \in Chains(1, n), f \in {n + 1, 9} } : n \in 1..MaxChain }
-         \cup { [kind |-> "single", certs |-> ch, fs |-> f, tid |-> 0] : ch \in Chains(1, 1), f \in {2, 9} }
+    IF Family = "trace" THEN { [kind |-> TraceLog[i].kind, certs |-> TraceLog[i].certs, fs |-> TraceLog[i].fs, tid |-> i, want |-> Len(TraceLog[i].certs)] : i \in 1..Len(TraceLog) }
+    \* (the certificates of a chain are chosen one at a time by the action PickCert - status "setup", target length in
+    \*  `want` - so that their enumeration is part of the parallel search, not of the sequential initial-state computation)
+    ELSE UNION { { [kind |-> "chain", certs |-> <<>>, fs |-> f, tid |-> 0, want |-> n] : f \in {n + 1, 9} } : n \in 1..MaxChain }
+         \cup { [kind |-> "single", certs |-> <<>>, fs |-> f, tid |-> 0, want |-> 1] : f \in {2, 9} }
          \* serialisation cases: begin = certs[1].d, end = certs[1].s, may-delegate = certs[1].can (fields reused)
-         \cup { [kind |-> "cert", certs |-> <<[d |-> b, s |-> e, win |-> "in", can |-> cn]>>, fs |-> 0, tid |-> 0] :
+         \cup { [kind |-> "cert", certs |-> <<[d |-> b, s |-> e, win |-> "in", can |-> cn]>>, fs |-> 0, tid |-> 0, want |-> 1] :
                    b \in Bounds, e \in {0, 2147483647, 70000}, cn \in BOOLEAN }
 
-Init == sc \in Scenarios(0) /\ auth = RootKey /\ idx = 1 /\ status = (IF sc.kind = "cert" THEN "cert" ELSE "run")
+Init == sc \in Scenarios(0) /\ auth = RootKey /\ idx = 1
+        /\ status = (IF sc.kind = "cert" THEN "cert" ELSE IF Len(sc.certs) < sc.want THEN "setup" ELSE "run")
+PickCert == /\ status = "setup"
+            /\ \E cc \in Certs(Len(sc.certs) + 1) : sc' = [sc EXCEPT !.certs = Append(@, cc)]
+            /\ status' = (IF Len(sc.certs) + 1 = sc.want THEN "run" ELSE "setup")
+            /\ UNCHANGED <<auth, idx>>
 
 \* one certificate
 StepCert ==
@@ -49,7 +56,7 @@ StepCert ==
             THEN auth' = ct.d /\ idx' = idx + 1 /\ UNCHANGED <<sc, status>>                    \* recurse: the delegate authorizes the next certificate
        ELSE IF more THEN status' = "error" /\ UNCHANGED <<sc, auth, idx>>                      \* may not delegate further: the next certificate is taken as a signature
        ELSE status' = (IF sc.fs = ct.d THEN "true" ELSE "false") /\ UNCHANGED <<sc, auth, idx>>   \* final signature under the delegate key
-Next == StepCert
+Next == PickCert \/ StepCert
 Spec == Init /\ [][Next]_vars
 
 \* ---- the declarative statement ---------------------------------------------------------------------------------
@@ -58,11 +65,11 @@ ValidChain(s) == LET n == Len(s.certs) IN
                        /\ WinOK(s.certs[i].win)
                        /\ (i < n => s.certs[i].can)
     /\ s.fs = s.certs[n].d
-Done == status # "run"
+Done == status \notin {"run", "setup"}
 AcceptIffValidChain == Done /\ sc.kind # "cert" => ((status = "true") <=> ValidChain(sc))
 \* every certificate is signed by the key authorized so far; the authorizing key only ever moves to a certified delegate
 AuthIsCertified == idx > 1 => auth = sc.certs[idx - 1].d /\ sc.certs[idx - 1].can
-TypeOK == status \in {"run", "true", "false", "error", "cert"} /\ idx \in 1..Len(sc.certs)
+TypeOK == status \in {"setup", "run", "true", "false", "error", "cert"} /\ (status = "setup" \/ idx \in 1..Len(sc.certs))
 
 \* ---- certificate serialisation (105 bytes: key 32, begin 4, end 4, can 1, signature 64) --------------------------------
 U32(n) == <<n \div 16777216, (n \div 65536) % 256, (n \div 256) % 256, n % 256>>
